@@ -2,6 +2,7 @@ package harness
 
 import (
 	"fmt"
+	"strings"
 
 	"verifharness/refcodec"
 )
@@ -270,6 +271,43 @@ func genC23(t *Tape) *Plan {
 	cfg.Obscure = t.Draw("c23.obscure", 4) == 0
 	cfg.WriteBuf = []int{0, 16, 64}[t.Draw("c23.writebuf", 3)]
 	cfg.MaxSessExpiry = []uint32{0, 30}[t.Draw("c23.maxsess", 2)]
+	if t.Draw("c23.boundary", 3) == 0 {
+		// boundary sweep: an MQTT 5 subscriber announces a Maximum Packet Size, and a publisher sends payloads whose
+		// lengths step through the values at which the delivered packet is a few bytes below, exactly at, and a few
+		// bytes above it (off-by-one and off-by-header-length mistakes live there). The random tail follows.
+		limit := uint32([]int{40, 60, 140}[t.Draw("c23.boundary.limit", 3)]) // 140: a two-byte remaining length
+		ci := g.Connect(0)
+		cp := g.plan.Ops[ci].Pkt
+		cp.ProtoVer = 5
+		g.slots[0].ver = 5
+		var props refcodec.Props
+		for _, pr := range cp.Props {
+			if pr.ID != refcodec.PMaximumPacketSize {
+				props = append(props, pr)
+			}
+		}
+		cp.Props = append(props, refcodec.Prop{ID: refcodec.PMaximumPacketSize, Int: limit})
+		si := g.Subscribe(0)
+		g.plan.Ops[si].Pkt.Filters = []refcodec.Filter{{Filter: "t", Opts: 0}}
+		g.plan.Ops[si].Pkt.Props = nil
+		g.Connect(1)
+		// delivered QoS 0 PUBLISH on "t" to a v5 client: fixed header + topic + property block; measured rather than
+		// assumed by letting the sweep span 12 bytes around the estimate
+		est := int(limit) - 12
+		if est < 4 {
+			est = 4
+		}
+		for d := -4; d <= 7; d++ {
+			pi := g.Publish(1)
+			p := g.plan.Ops[pi].Pkt
+			p.Topic, p.Qos, p.PacketID, p.Retain, p.Props = "t", 0, 0, false, nil
+			head := fmt.Sprintf("m%d.", pi)
+			p.Payload = head + strings.Repeat("x", est+d-len(head))
+		}
+		for i := range g.plan.Ops {
+			g.plan.Ops[i].Concurrent = false
+		}
+	}
 	n := 6 + t.Draw("c23.len", 11)
 	for len(g.plan.Ops) < n {
 		switch t.Draw("c23.special", 10) {
